@@ -124,9 +124,14 @@ def pick_files(rng, n):
     pool = list(gen.DW_FILES)
     # bias towards files with an alt link and several units
     for _ in range(n):
-        if rng.random() < 0.45:
+        k = rng.random()
+        if k < 0.45:
             f = rng.choice(["a1.out", "dwz-partial2-1", "dwz-partial3-1", "twocus", "dwz-partial",
                             "dwz-partial4-1.o", "k1.o", "k2.o"])
+        elif k < 0.55:
+            # the deliberately odd samples
+            f = rng.choice(["haschildren_childless", "empty", "inconsistent-types", "duplicate-const",
+                            "imported-AT_decl_file.o", "attribute-die-cooked-no-dup.o"])
         else:
             f = rng.choice(pool)
         if f not in fs:
@@ -1056,4 +1061,81 @@ def gen_replaced_file(rng, profile):
             S.append(P.step(0, "EXEC", r, q3, i1))
             S += [P.step(0, "PULL", r) for _ in range(PULL_CAP)]
             S.append(P.step(0, "CANCEL", r))
+    return b.merge()
+
+
+FLAVOUR_PROGS = ["parent offset", "raw parent offset", "cooked parent offset", "root offset", "raw root offset", "raw child offset",
+                 "child offset", "raw attribute label", "attribute label", "parent parent offset", "raw parent raw parent offset",
+                 "cooked raw parent offset", "raw cooked parent offset", "parent", "raw parent", "raw", "cooked", "\"%s\"", "raw \"%s\"",
+                 "parent \"%s\"", "raw parent \"%s\"", "?root", "raw ?root", "parent ?root offset", "raw parent ?root offset",
+                 "name", "raw name", "@AT_type offset", "raw @AT_type offset", "abbrev code", "raw abbrev code", "unit offset",
+                 "raw unit offset", "[parent+ offset]", "[raw parent+ offset]", "root child offset", "raw root child offset"]
+FLAVOUR_SOURCES = ["entry", "entry", "entry", "raw entry", "entry child", "unit entry", "entry @AT_type", "entry ?TAG_imported_unit @AT_import child",
+                   "unit root child", "entry ?(parent ?TAG_partial_unit)", "raw entry ?(parent ?TAG_partial_unit) cooked",
+                   "entry attribute", "unit", "raw unit", "entry @AT_location", "symbol"]
+
+
+def gen_flavours(rng, profile):
+    """One value (a DIE mostly: cooked DIEs carry an import path, raw ones do
+    not) taken from an output stack and used by several queries, in both
+    flavours, one after the other or side by side, directly and through
+    clones: whatever one use works out and keeps in the value (a parent, a
+    root, a unit, a flavour) must not be what another use gets."""
+    b = Builder(rng, profile)
+    plan = b.plan
+    common_knobs(rng, plan)
+    if profile != "C13":
+        plan["knobs"]["leakcheck"] = 0
+    S = b.setup
+    f = rng.choice(["dwz-partial", "dwz-partial2-1", "dwz-partial3-1", "dwz-partial4-1.o", "a1.out"]) if rng.random() < 0.7 \
+        else rng.choice(pick_files(rng, 1))
+    v = b.v()
+    S.append(P.step(0, "OPEN", v, P.hexenc("/sim/0/" + f), rng.choice(["cooked", "cooked", "raw"])))
+    i0 = b.i()
+    S.append(P.step(0, "MKIN", i0, "V:%d" % v))
+    q0 = b.q()
+    S.append(P.step(0, "PARSE", q0, b.prog(rng.choice(FLAVOUR_SOURCES), 0)))
+    r0 = b.res()
+    S.append(P.step(0, "EXEC", r0, q0, i0))
+    for _ in range(rng.choice([0, 1, 2, 3, 4, 5, 6, 8, 10, 12, 16, 20])):
+        S.append(P.step(0, "PULL", r0))
+    o = b.o()
+    S.append(P.step(0, "PULL", r0, o))
+    if rng.random() < 0.5:
+        S.append(P.step(0, "CANCEL", r0))
+    n = rng.choice([2, 2, 3, 4])
+    progs = [rng.choice(FLAVOUR_PROGS) for _ in range(n)]
+    if rng.random() < 0.5:
+        # a word and its raw twin, in either order
+        w = rng.choice(["parent offset", "root offset", "child offset", "attribute label", "parent parent offset", "?root", "name"])
+        pair = [w, "raw " + w]
+        rng.shuffle(pair)
+        progs[:2] = pair
+    one_input = rng.random() < 0.4
+    ishared = b.i()
+    if one_input:
+        S.append(P.step(0, "MKIN", ishared, "O:%d:0" % o))
+    runs = []
+    for t in progs:
+        q = b.q()
+        if one_input:
+            i = ishared
+        else:
+            i = b.i()
+            S.append(P.step(0, "MKIN", i, "O:%d:0" % o))
+        S.append(P.step(0, "PARSE", q, b.prog(t, 0)))
+        st, _ = task_steps(b, 0, q, i, rng.choice([None, None, 1, 3]))
+        runs.append(st)
+    if rng.random() < 0.5:
+        for st in runs:
+            S += st
+    else:
+        # side by side: all executions started, then pulled round robin
+        for st in runs:
+            S.append(st[0])
+        rest = [st[1:] for st in runs]
+        while any(rest):
+            for r_ in rest:
+                if r_:
+                    S.append(r_.pop(0))
     return b.merge()
